@@ -66,12 +66,13 @@ const (
 	cSweepKey
 	cAdvance
 	cRefresh // the application extends the validity of a stored element (under the map's read lock)
+	cStore   // the embedded map's Store on the cache: replaces whatever is there, valid or not
 	numOps
 )
 
 var c14OpNames = [...]string{"Store", "Load", "LoadOrStore", "Replace", "Delete", "LoadAndDelete", "LoadAndDeleteAll", "Length", "CopyData", "Range2", "Range",
 	"StoreWithFunc", "LoadWithFunc", "LoadOrStoreWithFunc", "ReplaceWithFunc", "DeleteWithFunc", "LoadAndDeleteWithFunc", "Visit",
-	"Cache.LoadOrStore", "Cache.Load", "Cache.Delete", "Cache.CheckExpirations", "SweepKey", "AdvanceTime", "Cache.Refresh"}
+	"Cache.LoadOrStore", "Cache.Load", "Cache.Delete", "Cache.CheckExpirations", "SweepKey", "AdvanceTime", "Cache.Refresh", "Cache.Store"}
 
 type c14In struct {
 	Op    int
@@ -196,6 +197,9 @@ func c14Step(st, in, out interface{}) (bool, interface{}) {
 			return true, s
 		}
 		return false, s
+	case cStore:
+		s.Val[i.K], s.Until[i.K] = i.V, i.Until
+		return true, s
 	case cAdvance:
 		s.Now += i.Dt
 		return true, s
@@ -232,8 +236,9 @@ func c14Run(e *Env, isCache bool) {
 	e.Real("pkg/sync.Map", "pkg/cache.Cache")
 	nTasks := 2 + t.Choose(2)
 	nKeys := 1 + t.Choose(2)
-	// "auto.unlock" = the yields the build inserts after every non-deferred Unlock()/RUnlock() of map.go and cache.go
-	sites := []string{"task.op", "map.LoadOrStore.gap", "map.Range.item", "cache.LoadOrStore.afterNow", "cache.Load.beforeExpiryTest", "cache.sweep.beforeDelete", "auto.unlock"}
+	// "auto.unlock" = the yields the build inserts after every non-deferred Unlock()/RUnlock() of map.go and cache.go;
+	// "auto.aftercall" = those it inserts after every top-level call of cache.go into the embedded map
+	sites := []string{"task.op", "map.LoadOrStore.gap", "map.Range.item", "cache.LoadOrStore.afterNow", "cache.sweep.beforeDelete", "auto.unlock", "auto.aftercall"}
 	for _, s := range sites {
 		e.EnableParkAll(s)
 	}
@@ -344,7 +349,7 @@ func c14Run(e *Env, isCache bool) {
 			nextVal++
 			in := c14In{K: t.Choose(nKeys), V: nextVal}
 			if isCache {
-				in.Op = []int{cLoadOrStore, cLoad, cSweep, cDelete, cRefresh}[t.Weighted(4, 3, 3, 1, 2)]
+				in.Op = []int{cLoadOrStore, cLoad, cSweep, cDelete, cRefresh, cStore}[t.Weighted(4, 3, 3, 1, 2, 2)]
 				// validity: short (expires during the run), long, or never
 				in.Until = []int64{50, 10, 1000000, 0, 120}[t.Choose(5)] // relative ms, resolved at invoke
 				if useShared {
@@ -491,6 +496,25 @@ func c14Run(e *Env, isCache bool) {
 			r.call = tick()
 			actual, loaded := c.LoadOrStore(in.K, el)
 			r.out.V, r.out.Ok = actual.Data(), loaded
+		case cStore:
+			rel := in.Until
+			var until time.Time
+			if rel != 0 {
+				until = time.Now().Add(time.Duration(rel) * time.Millisecond)
+				r.in.Until = int64(until.Sub(base)) + 1
+			}
+			key := in.K
+			el := cache.NewElement(in.V, until, func(d int) {
+				e.mu.Lock()
+				subClient++
+				sc := subClient
+				sw := sweeps[goid()]
+				e.mu.Unlock()
+				add(&c14Rec{client: sc, in: c14In{Op: cSweepKey, K: key, Now: sw.now}, out: c14Out{V: d}, call: sw.call, ret: tick()})
+			})
+			e.Probe("cache.store")
+			r.call = tick()
+			c.Store(in.K, el)
 		case cLoad:
 			r.call = tick()
 			if el := c.Load(in.K); el != nil {
